@@ -183,6 +183,15 @@ func (matrix *DenseIntMatrix) SetIdentity() {
   }
 }
 func (matrix *DenseIntMatrix) Reset() {
+  if matrix.rows*matrix.cols != len(matrix.values) {
+    // the matrix is a slice of a larger matrix
+    for i := 0; i < matrix.rows; i++ {
+      for j := 0; j < matrix.cols; j++ {
+        matrix.values[matrix.index(i, j)] = 0.0
+      }
+    }
+    return
+  }
   for i := 0; i < len(matrix.values); i++ {
     matrix.values[i] = 0.0
   }
